@@ -210,6 +210,10 @@ def step (_ : Unit) (toks : List Val) (impl : String) : Unit × Out :=
       mk (exStr (Func.last s) toString) (some (match Spec.Func.last s with | some v => toString v | none => "panic:bounds"))
         [lenTag "last" s]
     | none => bad
+  | [.w "mclonenil"] =>
+    -- Clone(nil) is a new, writable, empty map: after `c[1] = 2` it holds exactly that entry and the (nil) argument is still empty
+    let c := Func.mclone ([] : List (Int × Int))
+    mk s!"{(pairsVal (sortPairs (c ++ [(1, 2)]))).render} 0" (some "[[1,2]] 0") ["mclonenil"]
   | [.w "mclone", ps] =>
     match Val.pairs? ps with
     | some m =>
